@@ -382,6 +382,11 @@ def level1_configs(tier):
         add(2, 1, 3, revs=(False,), ss=1)
         add(3, 1, 3, revs=(False,), sj="0", seed_order="asc")
         add(2, 2, 3, revs=(True,), sj="0", seed_order="asc")
+        # coincident labels (non-strictly ascending coordinates)
+        add(2, 2, 1, coincident=True)
+        add(3, 2, 1, revs=(False,), coincident=True)
+        add(2, 1, 2, revs=(False,), coincident=True)
+        add(2, 2, 2, revs=(False,), coincident=True, seed_order="asc")
     return cfgs
 
 
@@ -404,7 +409,8 @@ def level1_unit(prop):
         functions=LEVEL1_FUNCTIONS,
         bounds="whole Aligner.align on K_R x K_Q labels with N seeds: quick 2x2/1, 3x2/1 and 2x2/1 as fragments with a label offset, 3x3/1, 2x1/2, "
                "2x2/2 and 2x1/3 (seed positions given in ascending or descending order); thorough 3x3/1, 4x3/1, 3x1/2, 2x2/2, 2x1/3 in any "
-               "seed order, 3x2/2, 3x1/3, 2x2/3 with ascending seeds under the wall-clock budget (non-exhaustive if it ends first); label "
+               "seed order, 3x2/2, 3x1/3, 2x2/3 with ascending seeds under the wall-clock budget (non-exhaustive if it ends first), plus 2x2/1, 3x2/1, "
+               "2x1/2, 2x2/2 with coincident labels allowed; label "
                "coordinates, seed positions, perfectMatchScore, unmatchedPenalty <= 0, minScore > 0, breakSegmentThreshold >= 0, "
                "maxPairDistance >= 0 unbounded symbolic reals; distancePenaltyMultiplier in {1, 1/2, 2}; join multiplier in {1, 0}",
         nontrivial_rule="the returned candidate has at least one pair",
